@@ -434,6 +434,10 @@ func c09Work(c *engine.Ctx) {
 				// attribute name / between attributes
 				{"<a " + r + ">", []hTok{{tt: html.StartTagToken, data: "<a", text: "a"}, {tt: html.AttributeToken, data: " " + r, text: r, tmpl: true}, {tt: html.StartTagCloseToken, data: ">"}}},
 				{"<a B" + r + "=c>", []hTok{{tt: html.StartTagToken, data: "<a", text: "a"}, {tt: html.AttributeToken, data: " B" + r + "=c", text: "B" + r, val: "c", tmpl: true}, {tt: html.StartTagCloseToken, data: ">"}}},
+				// upper-case names next to template regions: names are lower-cased, values stay verbatim
+				{"<A HREF=" + r + " Class=X>", []hTok{{tt: html.StartTagToken, data: "<a", text: "a"}, {tt: html.AttributeToken, data: " href=" + r, text: "href", val: r, tmpl: true}, {tt: html.AttributeToken, data: " class=X", text: "class", val: "X"}, {tt: html.StartTagCloseToken, data: ">"}}},
+				{"<a Data-X=\"P" + r + "Q\" ID='" + r + "'>", []hTok{{tt: html.StartTagToken, data: "<a", text: "a"}, {tt: html.AttributeToken, data: " data-x=\"P" + r + "Q\"", text: "data-x", val: "\"P" + r + "Q\"", tmpl: true}, {tt: html.AttributeToken, data: " id='" + r + "'", text: "id", val: "'" + r + "'", tmpl: true}, {tt: html.StartTagCloseToken, data: ">"}}},
+				{"<a B=c " + r + " D=e>", []hTok{{tt: html.StartTagToken, data: "<a", text: "a"}, {tt: html.AttributeToken, data: " b=c", text: "b", val: "c"}, {tt: html.AttributeToken, data: " " + r, text: r, tmpl: true}, {tt: html.AttributeToken, data: " d=e", text: "d", val: "e"}, {tt: html.StartTagCloseToken, data: ">"}}},
 				// raw text
 				{"<script>a" + r + "b</script>", []hTok{{tt: html.StartTagToken, data: "<script", text: "script"}, {tt: html.StartTagCloseToken, data: ">"}, {tt: html.TextToken, data: "a" + r + "b", text: "a" + r + "b", tmpl: true}, {tt: html.EndTagToken, data: "</script>", text: "script"}}},
 				{"<title>" + r + "</title>", []hTok{{tt: html.StartTagToken, data: "<title", text: "title"}, {tt: html.StartTagCloseToken, data: ">"}, {tt: html.TextToken, data: r, text: r, tmpl: true}, {tt: html.EndTagToken, data: "</title>", text: "title"}}},
